@@ -50,7 +50,7 @@ def gen_data_family(rng, n_roots=(1, 2)):
         spec = {'temporal': temporal, 'ou': ou, 'cu': list(cu), 'tu': tu,
                 'obs_desc': {'cond': gen.gen_grouping(rng, n_obs, kinds=('groups', 'groups', 'unique', 'allsame'), typ=ctyp),
                              'run': gen.gen_grouping(rng, n_obs, kinds=('groups', 'unique'), typ='int')},
-                'ch_desc': ch_desc, 'time_desc': {}, 'order': 'F' if rng.chance(0.2) else 'C',
+                'ch_desc': ch_desc, 'time_desc': {}, 'order': rng.pick(['F', 'S']) if rng.chance(0.3) else 'C',
                 'dtype': 'float32' if rng.chance(0.12) else 'float64',
                 'descriptors': {'subj': rng.pick(['s1', 's2']), 'sess': rng.pick([1, 2])}}
         if temporal and rng.chance(0.4):
@@ -69,6 +69,11 @@ def _layout(m, spec):
     m = m.astype(spec.get('dtype', 'float64'))
     if spec.get('order') == 'F':
         m = np.asfortranarray(m)
+    elif spec.get('order') == 'S':
+        big = np.full(tuple(2 * d + 1 for d in m.shape), -7, dtype=m.dtype)     # a strided view into a larger buffer
+        sl = tuple(slice(1, None, 2) for _ in m.shape)
+        big[sl] = m
+        m = big[sl]
     return m
 
 
